@@ -1074,7 +1074,7 @@ PROPS["C04"] = dict(
     level_text="Proved in Coq (Properties/C04.v), for tables of any length: slot_plan positions = where the model puts each declared function, all other slots are "
                "_vfunc_k placeholders, table length max(size, last+1); contradicting index / too small size cannot be accepted; slot k of the generated struct is at byte offset k*ptr; "
                "RustExec: the wrapper loads the object's vftable pointer (own first field, or the base sub-object's accessor) and makes exactly one call to the entry in its slot with receiver "
-               "first and arguments in order. On the emitted text (EmitFn*.v): C04_emitted_vftable_struct -- for every type of an accepted build with a vftable block the module's file contains the struct <T>Vftable, repr(C, align(ptr)), one fn-pointer field per slot of the resolved table in slot order with the slot function's ABI, parameter and return types; a virtual function's wrapper is the template (self.vftable().<name>)(receiver, args..) (C05_wrapper_shape). Correspondence compares vftable struct fields/types, accessor and wrapper bodies; the monitor re-derives slots, placeholder shape, "
+               "first and arguments in order. On the emitted text (EmitFn*.v): C04_emitted_vftable_struct -- for every type of an accepted build with a vftable block the module's file contains the struct <T>Vftable, repr(C, align(ptr)), one fn-pointer field per slot of the resolved table in slot order with the slot function's ABI, parameter and return types; a virtual function's wrapper is the template (self.vftable().<name>)(receiver, args..) (C05_wrapper_shape). C04_emitted_declared_slot (EmitVftLayout.v): a virtual function declared #[index(i)] is the fn-pointer field at byte offset i*ptr of the emitted struct, computed by the Reference algorithm from the emitted item. Correspondence compares vftable struct fields/types, accessor and wrapper bodies; the monitor re-derives slots, placeholder shape, "
                "slot byte offsets (independent layout calculator) and wrapper call shape from the implementation's files against the description. C04_whole_build: end to end, the <T>Vftable item "
                "of the FINAL registry of every accepted collision_free build is the struct built from exactly the converted slot list, final from the moment its owner is resolved.",
     level_note="Trusted: Coq kernel; model validated by this run's correspondence; RustExec.v is the meaning given to the three-line wrapper template (spec side, not rustc); "
@@ -1179,7 +1179,7 @@ PROPS["C12"] = dict(
          "1 cyclic module/type graph, 1 absurd-number or misuse pattern; plus API cases (pointer sizes 0,1,2,3,5,16,2^31; a module added twice; the root module replaced; invalid identifiers). Each case runs in a harness process "
          "with a wall-clock bound; distinct = distinct input; every distinct input is non-trivial for this property",
     level_text="Proved in Coq (Properties/C12.v): the resolution loop terminates within 1 + #unresolved rounds for every item-count-preserving schedule (all hook schedules, hence all hash orders); the alignment check's unwraps are unreachable; "
-               "size/offset/lcm arithmetic is checked (no wrapped value); C12_front_half_never_panics / C12_front_half_total: for EVERY input, pointer width and schedule the model's front half (registration, loop, finish_build) ends in accepted / error value / no-progress error, never in a panic or out of fuel; C12_emitter_fuel_suffices: the back end's hierarchy walk never exhausts its fuel on an accepted build (no unbounded recursion in write_all). Everything the model cannot exhibit (lexer, syn recursion, format_ident!, time, memory) is decided by the monitor: no generated input may make the real pyxis panic, hang or crash, "
+               "size/offset/lcm arithmetic is checked (no wrapped value); C12_front_half_never_panics / C12_front_half_total: for EVERY input, pointer width and schedule the model's front half (registration, loop, finish_build) ends in accepted / error value / no-progress error, never in a panic or out of fuel; C12_emitter_fuel_suffices: the back end's hierarchy walk never exhausts its fuel on an accepted build (no unbounded recursion in write_all); C12_emitter_never_panics: for every accepted build of an input whose declared names are identifiers (decidable names_fine) write_all does not panic -- every format_ident! site gets an identifier, the generated names are proved to be identifiers -- and C12_model_pipeline_total: front half + back end end in files / error value / no-progress error; the raw-identifier input of F6f is the proved witness that the names hypothesis is needed. Everything the model cannot exhibit (lexer, syn recursion, format_ident!, time, memory) is decided by the monitor: no generated input may make the real pyxis panic, hang or crash, "
                "both entry points must agree, parse errors must carry file:line:column inside the file, and for inputs that parse the model must agree on the verdict class. Known findings: raw identifiers (F6f), pointer size 0 through the API (F6g), invalid identifiers through the API (F6i).",
     level_note="Trusted: Coq kernel; model validated by this run's correspondence; the process-level bound (10 s per case) as the definition of 'hang'; only the debug profile is exercised (overflow checks on).",
     technique="Coq termination/no-panic proofs on the model + bounded-process robustness monitor on the real implementation",
@@ -1193,7 +1193,7 @@ PROPS["C20"] = dict(
          "pyxis and every output file is compared by content hash; non-trivial = accepted and the two texts differ",
     level_text="Proved in Coq (Properties/C20.v), each as 'the model computes the same result': explicit address = natural address, size attribute = natural size, index = natural slot, enum value = implicit value. "
                "Gap <-> address: the placement fold ends at the same offset with region lists that differ only in how the unnamed gap region was created, and the naming pass maps both to the same regions (C20_gap_is_address, C20_naming_ignores_gap_spelling). "
-               "C20_reorder_same_output: reordering the definitions inside the modules of a collision_free, clean input gives the same verdict class and, when accepted, exactly the same files, under any two schedules. Number spelling is the lexer's business (the AST carries the value; C18). All rewrites, again on the real code, are decided by the monitor: original and rewritten description built by the real pyxis, outputs byte-identical.",
+               "C20_reorder_same_output: reordering the definitions inside the modules of a collision_free, clean input gives the same verdict class and, when accepted, exactly the same files, under any two schedules. C20_number_spelling_irrelevant (IntLit.v): for every number, every two spellings (decimal, hex in either case, binary, octal, any underscores, any integer suffix) are read as the same value by the lexical model of proc_macro2 + syn + base10_parse, hence give the same token and AST (the lexical model is tied to the real lexer by C18's correspondence D). All rewrites, again on the real code, are decided by the monitor: original and rewritten description built by the real pyxis, outputs byte-identical.",
     level_note="Trusted: Coq kernel; model validated by this run's correspondence (verdict, file set, registry on both sides); byte identity is observed on the implementation (content hash of every output file).",
 )
 
@@ -1246,7 +1246,7 @@ PROPS["C18"] = dict(
          "decimal/hex/binary/octal/underscore literals, escaped and raw strings, arbitrary interleaving of the six statement classes; the real parser must return exactly the generated module. "
          "B. 3000 (quick) type and attribute-list strings, 35% of them token-mutated: the Coq parser on the real lexer's token stream must agree with the real parser. non-trivial = distinct module whose AST has > 200 characters",
     level_text="Proved in Coq (Properties/C18.v): parse(print x) = x for types (any nesting, incl. the generics hack), expressions and attribute lists (any length), and C18_module_roundtrip: parse_module (print_module m) = Some m for EVERY well-formed module over the whole grammar "
-               "(functions, fields, vftable blocks, type/enum definitions, impl, extern types/values, use, backend blocks, module attributes, any interleaving of item kinds), with a decidable well-formedness predicate. Lexing and error positions are not modelled (the token stream is the real lexer's); "
+               "(functions, fields, vftable blocks, type/enum definitions, impl, extern types/values, use, backend blocks, module attributes, any interleaving of item kinds), with a decidable well-formedness predicate. Integer literals (IntLit.v): the value and suffix of a spelling as proc_macro2's lexer and syn read it, and base10_parse::<isize>/<usize> on top: every spelling of n (any base, underscores, hex case, admissible suffix) reads as n, the printer's decimal spelling reads back, reading succeeds exactly in range (C18_literal_value_of_every_spelling, C18_decimal_literal_roundtrip, C18_isize_reading_spec, C18_usize_reading_spec); the lexical model is compared with the real parser on 1200 spellings per run (part D). The rest of lexing and error positions are not modelled (the token stream is the real lexer's); "
                "spellings other than the printer's canonical one are covered by the monitor: the real parser on randomised concrete syntax of generated abstract modules must return the identical module, and the Coq parsers (types, attribute lists, whole modules) and the real parser are run on the same token streams (valid and token-damaged) and must agree on acceptance and on the result.",
     level_note="Trusted: Coq kernel; tools/c18.py's printer (it defines 'written out in concrete syntax'); proc_macro2 as the lexer both parsers consume.",
     technique="Coq round-trip proofs for the modelled sub-grammars + differential testing real parser vs generated ASTs and vs the Coq parser",
@@ -1293,7 +1293,7 @@ PROPS["C02"].update(
                "region sizes, equals a declared #[size(N)], and the Rust Reference layout of the emitted "
                "repr(C, align(A)) / repr(C, packed) struct has exactly the resolved size and alignment. Correspondence compares the "
                "registry (size, alignment per item, read through the public API), repr attributes and size-check literals; "
-               "the monitor recomputes every emitted item's layout from the implementation's files. C02_whole_build / C02_items_come_from_attempts / C02_sizes_never_change: end to end for every accepted collision_free build -- every item comes from one attempt whose known sizes are unchanged in the final registry.",
+               "the monitor recomputes every emitted item's layout from the implementation's files. C02_whole_build / C02_items_come_from_attempts / C02_sizes_never_change: end to end for every accepted collision_free build -- every item comes from one attempt whose known sizes are unchanged in the final registry. Generated vftable structs (EmitVftLayout.v): C02_emitted_vftable_size_align -- the Reference layout computed from the EMITTED <T>Vftable struct equals the size/alignment of the generated item in the final registry (n*ptr, ptr) and what size_of/align_of answer for the type; the emitted size check asserts the same number.",
     level_note="Trusted: Coq kernel; hand-written model validated by the correspondence of this run; RustLayout.v is a transcription of the Reference "
                "(checked against pylayout on the real files and, at pointer width 8, against rustc itself: const assertions size_of/align_of == resolved on the emitted crate, 40 crates quick / 600 thorough), not proved against rustc.",
 )
